@@ -5,11 +5,13 @@ package main
 import (
 	"bytes"
 	"encoding/base64"
+	"encoding/json"
 	"fmt"
 	"math/big"
 	"strings"
 
 	"github.com/icon-project/goloop/common"
+	"github.com/icon-project/goloop/common/codec"
 	"github.com/icon-project/goloop/common/crypto"
 	"github.com/icon-project/goloop/service/transaction"
 )
@@ -391,9 +393,148 @@ func c13TypedTxCase(g *Gen) {
 	}
 }
 
+// c13V3Data mirrors transactionV3Data (same field types, same order) so that the
+// binary form of transactions that could never be submitted as JSON can be built.
+type c13V3Data struct {
+	Version   common.HexUint16
+	From      common.Address
+	To        common.Address
+	Value     *common.HexInt
+	StepLimit common.HexInt
+	TimeStamp common.HexInt64
+	NID       *common.HexInt64
+	Nonce     *common.HexInt
+	Signature common.Signature
+	DataType  *string
+	Data      []byte
+}
+
+func c13Unhashable(g *Gen) interface{} {
+	b := g.Intn(2) == 0
+	switch g.Intn(6) {
+	case 0:
+		return b
+	case 1:
+		return c12Obj{{"a", b}}
+	case 2:
+		return []interface{}{c12Num("1"), []interface{}{"x", b}}
+	case 3:
+		return c12Obj{{"method", "m"}, {"params", c12Obj{{"flag", b}, {"n", "0x1"}}}}
+	case 4:
+		return c12Obj{{"k", []interface{}{c12Obj{{"deep", c12Obj{{"er", b}}}}}}}
+	default:
+		return []interface{}{b, !b}
+	}
+}
+
+// c13BinCase: transactions in BINARY form (NewTransaction from bytes), with hashable and
+// unhashable data, crossed with genuine-looking / other-key / random / crafted signatures.
+func c13BinCase(g *Gen) {
+	key := c13Key(g)
+	pub := key.PublicKey().SerializeUncompressed()
+	d := &c13V3Data{}
+	d.Version.Value = 3
+	d.From.Set(common.NewAccountAddressFromPublicKey(key.PublicKey()))
+	d.To.SetTypeAndID(g.Intn(3) == 0, g.Bytes(20))
+	if g.Intn(2) == 0 {
+		d.Value = common.NewHexInt(int64(g.Intn(1 << 30)))
+	}
+	d.StepLimit.SetInt64(int64(g.Intn(1 << 30)))
+	d.TimeStamp.Value = int64(g.R.Uint64() >> uint(8+g.Intn(40)))
+	if g.Intn(2) == 0 {
+		d.NID = &common.HexInt64{Value: int64(g.Intn(100))}
+	}
+	if g.Intn(2) == 0 {
+		d.Nonce = common.NewHexInt(int64(g.Intn(1000)))
+	}
+	hashable := g.Intn(3) == 0
+	what := "unhashable"
+	var data interface{}
+	switch g.Intn(4) {
+	case 0:
+		// dataType nil
+		what += "-nil"
+	case 1, 2:
+		dt := "message"
+		d.DataType = &dt
+		what += "-message"
+	default:
+		dt := "x" + c12RandString(g)
+		d.DataType = &dt
+		what += "-other"
+	}
+	if hashable {
+		what = "hashable" + what[len("unhashable"):]
+		switch g.Intn(3) {
+		case 0:
+			data = c13Absent
+		default:
+			data = c12RandValue(g, 2, false)
+		}
+	} else {
+		data = c13Unhashable(g)
+	}
+	if data != c13Absent {
+		d.Data = []byte(c12Text(g, g.Intn(2), data))
+	}
+	enc := func() []byte {
+		bs, err := codec.BC.MarshalToBytes(d)
+		if err != nil {
+			panic(err)
+		}
+		return bs
+	}
+	// the id the implementation computes for the unsigned form (empty when not computable)
+	var id []byte
+	if tx, err := transaction.NewTransaction(enc()); err == nil {
+		id = tx.ID()
+	}
+	signOver := id
+	if len(signOver) == 0 {
+		signOver = make([]byte, 32) // what a placeholder all-zero id would be
+	}
+	exp := "n"
+	sigWhat := ""
+	setSig := func(rsv []byte) {
+		s, err := crypto.ParseSignature(rsv)
+		if err != nil {
+			panic(err)
+		}
+		d.Signature.Signature = s
+	}
+	switch g.Intn(7) {
+	case 0, 1:
+		setSig(c13Sign(signOver, key))
+		sigWhat = "genuine"
+		if hashable && len(id) > 0 {
+			exp = "v"
+		}
+	case 2:
+		other := c13Key(g)
+		for bytes.Equal(other.Bytes(), key.Bytes()) {
+			other = c13Key(g)
+		}
+		setSig(c13Sign(signOver, other))
+		sigWhat = "otherkey"
+	case 3:
+		r := g.Bytes(65)
+		r[64] = byte(g.Intn(2))
+		setSig(r)
+		sigWhat = "random"
+	case 4, 5:
+		// forgery from the PUBLIC key alone: r = s = P.x, V = parity(P.y); recovers P when e = 0
+		r := append(append(append([]byte{}, pub[1:33]...), pub[1:33]...), pub[64]&1)
+		setSig(r)
+		sigWhat = "crafted-px-px"
+	default:
+		sigWhat = "absent"
+	}
+	g.Emit("binverify %s %s %s/%s", hx(enc()), exp, what, sigWhat)
+}
+
 func c13Gen(g *Gen) {
 	for i := 0; i < g.N; i++ {
-		switch g.Intn(15) {
+		switch g.Intn(17) {
 		case 0:
 			n := g.Pick(0, 1, 32, 63, 64, 64, 65, 65, 65, 66, 128, 130)
 			b := g.Bytes(n)
@@ -456,6 +597,8 @@ func c13Gen(g *Gen) {
 			_ = rel
 		case 9:
 			c13TxCase(g)
+		case 15, 16:
+			c13BinCase(g)
 		default:
 			c13TypedTxCase(g)
 		}
@@ -621,8 +764,14 @@ func (c13Runner) Step(t []string, o *Oracle) string {
 			return "true"
 		}
 		return "false"
-	case "txverify":
-		tx, err := transaction.NewTransactionFromJSON(unhx(t[1]))
+	case "txverify", "binverify":
+		var tx transaction.Transaction
+		var err error
+		if t[0] == "txverify" {
+			tx, err = transaction.NewTransactionFromJSON(unhx(t[1]))
+		} else {
+			tx, err = transaction.NewTransaction(unhx(t[1]))
+		}
 		if err != nil {
 			o.Count("tx-err")
 			if len(t) >= 4 && (t[2] == "v") {
@@ -634,22 +783,42 @@ func (c13Runner) Step(t []string, o *Oracle) string {
 		if err := tx.Verify(); err != nil {
 			got = "rejected"
 		}
+		pre := "tx-"
+		if t[0] == "binverify" {
+			pre = "bin-"
+		}
 		if len(t) >= 4 {
-			o.Count("tx-" + t[3] + "-" + t[2] + "-" + got)
+			o.Count(pre + t[3] + "-" + t[2] + "-" + got)
 			switch t[2] {
 			case "v":
 				o.Check(got == "verified", "sender-signature-rejected", "%s: signed by the sender key over the id, but rejected", t[3])
 			case "n":
-				o.Check(got == "rejected", "unauthorized-transaction-verifies", "%s: verifies without the sender's signature over its id: %s", t[3], unhx(t[1]))
+				o.Check(got == "rejected", "unauthorized-transaction-verifies", "%s: verifies without the sender's signature over its id: %x", t[3], unhx(t[1]))
 			}
+		}
+		f, _, ok := transaction.VerifC12Fields(tx)
+		// independent: is the id computable at all? (data must be serialisable)
+		unhashable := false
+		if ok && f[8] != "nil" && f[8] != "-" {
+			var dv interface{}
+			if json.Unmarshal(unhx(f[8]), &dv) == nil {
+				if _, can := c12SpecSer(dv); !can {
+					unhashable = true
+				}
+			} else {
+				unhashable = true
+			}
+		}
+		if unhashable {
+			o.Count(pre + "unhashable-" + got)
+			o.Check(got == "rejected", "unhashable-transaction-verifies", "%s: the id of this transaction cannot be computed (data %s) but Verify passes", c13Lab(t), unhx(f[8]))
 		}
 		// independent re-check of the accept decision on the real objects
 		if got == "verified" {
-			f, _, ok := transaction.VerifC12Fields(tx)
 			if ok && f[9] != "-" {
 				sig, err := crypto.ParseSignature(unhx(f[9]))
 				good := false
-				if err == nil {
+				if err == nil && len(tx.ID()) > 0 {
 					if pk, err := sig.RecoverPublicKey(tx.ID()); err == nil {
 						good = common.NewAccountAddressFromPublicKey(pk).String() == f[0] && strings.HasPrefix(f[0], "hx")
 					}
